@@ -7,7 +7,7 @@ func init() { checks["C01"] = c01 }
 func c01(r *core.Run) {
 	thriftrw := r.GoBuildRepo("thriftrw", "go.uber.org/thriftrw")
 	per := uint64(r.Pick(60, 300))
-	runDrivers(r, thriftrw, "safe", uint64(r.Pick(60, 1500)), 30, nil, nil, []driverMon{
+	runDrivers(r, thriftrw, "safe", uint64(r.Pick(120, 1500)), 30, nil, nil, []driverMon{
 		{name: "c01", cases: func(t, c, f int) uint64 { return uint64(t) * per }},
 		{name: "c01consts", cases: func(t, c, f int) uint64 { return uint64(c+t) * 2 }},
 	})
